@@ -222,8 +222,12 @@ func c09LShowTries(ts [][]c09LResp) string {
 }
 
 func c09LegacyRun(t *testing.T, dir string, reg *c09LegReg, m *Manifest) error {
+	return c09LegacyRunNamed(t, dir, reg, m, "example.com/library/push:latest")
+}
+
+func c09LegacyRunNamed(t *testing.T, dir string, reg *c09LegReg, m *Manifest, name string) error {
 	t.Setenv("OLLAMA_MODELS", dir)
-	mp := ParseModelPath("example.com/library/push:latest")
+	mp := ParseModelPath(name)
 	fp, err := mp.GetManifestPath()
 	if err != nil {
 		t.Fatal(err)
@@ -238,7 +242,7 @@ func c09LegacyRun(t *testing.T, dir string, reg *c09LegReg, m *Manifest) error {
 	defer func() { http.DefaultTransport = old }()
 	var perr error
 	synctest.Test(t, func(t *testing.T) {
-		perr = PushModel(context.Background(), "example.com/library/push:latest", &registryOptions{Insecure: true},
+		perr = PushModel(context.Background(), name, &registryOptions{Insecure: true},
 			func(api.ProgressResponse) {})
 		synctest.Wait()
 	})
@@ -390,10 +394,18 @@ func c09LegacyCase(t *testing.T, out *zzverif.Out, rng *zzverif.Rng, dir, tag st
 		f.Close()
 	}
 
-	// L2 on the request log alone: manifest requests come last; when one is sent, the last request
-	// the registry saw for every layer belongs to its HEAD exchange or to a commit try and was
-	// answered 2xx; success is reported only if the manifest exchange ended on a 2xx.
-	caseLine := tag + " :: " + op
+	c09LegacyL2(out, tag+" :: "+op, reg.events, n, perr)
+}
+
+// c09LegacyL2, on the request log alone: manifest requests come last; when one is sent, the last
+// request the registry saw for every layer belongs to its HEAD exchange or to a commit try and was
+// answered 2xx; success is reported only if the manifest exchange ended on a 2xx.
+func c09LegacyL2(out *zzverif.Out, caseLine string, events []c09LegEvent, n int, perr error) {
+	var evs []string
+	for _, e := range events {
+		evs = append(evs, e.String())
+	}
+	reg := struct{ events []c09LegEvent }{events}
 	ls := "push-legacy log=" + strings.Join(evs, " ")
 	first := -1
 	for i, e := range reg.events {
@@ -969,4 +981,158 @@ func TestVerifC09SharedCancelCrash(t *testing.T) {
 		}
 	}
 	os.WriteFile(filepath.Join(os.Getenv("VERIF_OUT"), "runcancel.txt"), []byte("safe\n"), 0o644)
+}
+
+// ---------------------------------------------------------------------------------------------
+// SEQUENTIAL pushes in one process: 2-3 pushes of models that share layers, to the same or to
+// different repositories; the registry's state is per repository (it has a blob once a commit of that
+// blob to THAT repository was answered 2xx).  The digest-keyed blobUploadManager must be empty between
+// pushes (the entry lives exactly as long as the transfer), so every push is an independent single
+// push for the model (oracle `legacy`, one L1 line per push) and for the property (L2 per push).
+
+func c09SeqCase(t *testing.T, out *zzverif.Out, rng *zzverif.Rng, dir, tag string, strict bool) {
+	var pool [][]byte
+	var digs []string
+	for i := 0; i < rng.Range(2, 3); i++ {
+		d := append([]byte(fmt.Sprintf("seq-%d-", i)), rng.Bytes(rng.Range(1, 30))...)
+		pool = append(pool, d)
+		digs = append(digs, c09LegacyBlob(t, dir, d))
+	}
+	has := map[string]map[string]bool{"ra": {}, "rb": {}}
+	opened := c09LResp{202, true}
+	npush := rng.Range(2, 3)
+	out.Count(fmt.Sprintf("seq_pushes_%d", npush))
+	for j := 0; j < npush; j++ {
+		repo := zzverif.Pick(rng, []string{"ra", "rb"})
+		if j == 1 && rng.Chance(2, 3) { // usually the second push goes to the OTHER repository
+			repo = "rb"
+			if len(has["rb"]) > 0 {
+				repo = "ra"
+			}
+		}
+		name := fmt.Sprintf("example.com/library/%s:t%d", repo, j)
+		// the layers of this model: the first pool layer is shared by all, others at random
+		idxs := []int{0}
+		for k := 1; k < len(pool); k++ {
+			if rng.Bool() {
+				idxs = append(idxs, k)
+			}
+		}
+		n := len(idxs)
+		reg := c09NewLegReg(n)
+		var m Manifest
+		m.SchemaVersion = 2
+		fault := -1
+		if rng.Chance(1, 5) {
+			fault = rng.Intn(n)
+		}
+		for li, k := range idxs {
+			l := c09LegLayer{head: []c09LResp{{404, false}}, post: []c09LResp{opened}, patch: [][]c09LResp{{opened}}}
+			if has[repo][digs[k]] {
+				l.head = []c09LResp{{200, false}}
+				out.Count("seq_layer_already_in_repository")
+			} else if j > 0 {
+				out.Count("seq_layer_uploaded_before_but_not_to_this_repository_or_failed")
+			}
+			if li == fault {
+				switch rng.Intn(3) {
+				case 0:
+					l.post = []c09LResp{{500, false}}
+				case 1:
+					l.patch = [][]c09LResp{{{500, false}}, {{500, false}}, {{500, false}}, {{500, false}}, {{500, false}}, {{500, false}}}
+				case 2:
+					l.commit = [][]c09LResp{{{500, false}}, {{500, false}}, {{500, false}}, {{500, false}}, {{500, false}}, {{500, false}}}
+				}
+				out.Count("seq_faulty_layer")
+			}
+			reg.layers[li] = l
+			reg.index[digs[k]] = li
+			m.Layers = append(m.Layers, Layer{MediaType: "application/vnd.ollama.image.model", Digest: digs[k], Size: int64(len(pool[k]))})
+		}
+		perr := c09LegacyRunNamed(t, dir, reg, &m, name)
+		st := 0
+		if strict {
+			st = 1
+		}
+		var sb strings.Builder
+		fmt.Fprintf(&sb, "legacy %d %d", st, n)
+		for _, l := range reg.layers {
+			fmt.Fprintf(&sb, " %s %s %s %s", c09LShow(l.head), c09LShow(l.post), c09LShowTries(l.patch), c09LShowTries(l.commit))
+		}
+		fmt.Fprintf(&sb, " %s", c09LShow(reg.man))
+		op := sb.String()
+		var evs []string
+		for _, e := range reg.events {
+			evs = append(evs, e.String())
+			// the registry's state of this repository
+			if e.layer >= 0 && e.kind == "c" && e.status/100 == 2 {
+				has[repo][digs[idxs[e.layer]]] = true
+			}
+		}
+		res := "ok"
+		if perr != nil {
+			res = "err"
+		}
+		out.Count("seq_result_" + res)
+		ptag := fmt.Sprintf("%s push=%d repo=%s", tag, j, repo)
+		out.Case(op, fmt.Sprintf("%s res=%s", strings.Join(evs, " "), res))
+		if f, err := os.OpenFile(filepath.Join(zzverif.OutDir(), "tags.txt"), os.O_APPEND|os.O_CREATE|os.O_WRONLY, 0o644); err == nil {
+			fmt.Fprintln(f, ptag)
+			f.Close()
+		}
+		for _, u := range reg.unknown {
+			out.L2("driver-unexpected-request", ptag, u)
+		}
+		c09LegacyL2(out, ptag+" :: "+op, reg.events, n, perr)
+		// against the per-repository state: a manifest only if the repository has every layer now
+		sent := false
+		for _, e := range reg.events {
+			if e.layer < 0 {
+				sent = true
+			}
+		}
+		if sent {
+			for li, k := range idxs {
+				if !has[repo][digs[k]] {
+					out.L2("push-manifest-before-layer-accepted", ptag+" :: "+op,
+						fmt.Sprintf("push-legacy-sequential layer=%d is not in repository %s (no HEAD 2xx from it, no commit 2xx to it) log=%s", li, repo, strings.Join(evs, " ")))
+				}
+			}
+		}
+	}
+	for _, d := range digs {
+		blobUploadManager.Delete(d)
+	}
+}
+
+func TestVerifC09LegacySeq(t *testing.T) {
+	out := zzverif.NewOut()
+	defer out.Close()
+	seed := zzverif.Seed()
+	n := zzverif.EnvInt("VERIF_NSEQ", 100)
+	ridx := -1
+	if p := os.Getenv("VERIF_REPLAY"); p != "" {
+		raw, err := os.ReadFile(p)
+		if err != nil {
+			t.Fatal(err)
+		}
+		var k string
+		if _, err := fmt.Sscanf(string(raw), "seed=%d kind=%s idx=%d", &seed, &k, &ridx); err != nil || k != "seq" {
+			t.Fatalf("VERIF_REPLAY: not a seq case header: %q", raw)
+		}
+	}
+	strict := c09ProbeStrict(t)
+	root := zzverif.NewRng(seed).Fork().Fork().Fork()
+	base := t.TempDir()
+	for i := 0; i < n; i++ {
+		rng := root.Fork()
+		if ridx >= 0 && i != ridx {
+			continue
+		}
+		dir := filepath.Join(base, fmt.Sprintf("q%d", i))
+		c09SeqCase(t, out, rng, dir, fmt.Sprintf("seed=%d kind=seq idx=%d", seed, i), strict)
+		os.RemoveAll(dir)
+		out.Count("cases")
+		out.Count("seq_cases")
+	}
 }
